@@ -9,6 +9,7 @@ Driver for C16.  Requests (tokens separated by blanks, see `harness/src/props/c1
 
   c16.run    G<k> g… FILES<n> (P|path src)… MAIN|path src     → load trace, load/compile errors or output
   c16.inline (same arguments)                                 → the inlined program as jq text + its model output
+  c16.cli    NAMED<n> … E|hex A|hex F|hex G0 FILES… MAIN…         → outcome under the run-time vector of `real_main`
   c16.find   …                                                → which file `Import::find` answers
   c16.setext <fix 0|1> =name =ext                              → `set_extension` on a relative path
 
@@ -257,6 +258,59 @@ def inlineReq (r : Req) : String :=
       "PROG " ++ showTm t ++ " ## " ++ out ++ " ## " ++ showR (runSingle r.globals l.vv.globals t) ++ " ## " ++
         showR (runLexical l.graph l.vv)
 
+/-! command line: the run-time vector of `real_main` -/
+
+def hexDigit (c : Char) : Nat :=
+  if '0' ≤ c ∧ c ≤ '9' then c.toNat - '0'.toNat else if 'a' ≤ c ∧ c ≤ 'f' then c.toNat - 'a'.toNat + 10 else 0
+
+def unhexBytes : List Char → List UInt8
+  | a :: b :: r => UInt8.ofNat (hexDigit a * 16 + hexDigit b) :: unhexBytes r
+  | _ => []
+
+def unhex (s : String) : String := (String.fromUTF8? ⟨(unhexBytes s.toList).toArray⟩).getD "?"
+
+/-- c16.cli NAMED<n> (kind|$name|value)… E|hexjson A|hexjson F|hexname G0 FILES… MAIN…
+    The named variables arrive in COMMAND-LINE order; the model orders them as `binds` does,
+    names the globals as `parse_compile` does (`cliGlobals`), the prelude (module 0) defines
+    `input_filename` as `$!input_filename` (`jaq/src/filter.rs: defs`), and a data import is the
+    array of the values in the file (one string `D:<file>` per data file). -/
+def cliReq (toks : List String) : String :=
+  match toks with
+  | nm :: r =>
+    let n := numAfter nm 5
+    let named := (r.take n).filterMap fun t => match t.splitOn "|" with
+      | [k, x, v] => some (k, (x.drop 1).toString, v)
+      | _ => none
+    match r.drop n with
+    | e :: a :: f :: rest =>
+      let kind (k : String) : List (String × V) :=
+        (named.filter fun t => t.1 = k).map fun (_, x, v) => (x, if k = "slurpfile" then V.arr [V.tag v] else V.tag v)
+      let argsV := V.raw (unhex ((a.drop 2).toString))
+      let envV := V.raw (unhex ((e.drop 2).toString))
+      let c : CliVars V := ⟨kind "arg", kind "rawfile", kind "slurpfile", kind "argjson", argsV, envV⟩
+      let gl := cliGlobals c (V.tag (unhex ((f.drop 2).toString)))
+      match parseReq rest with
+      | none => "bad-request"
+      | some rq =>
+        let prelude : Body := ⟨[Def.mk "input_filename" [] (.var "$!input_filename")], none⟩
+        let fuel := rq.files.length + 2
+        match load (memReader rq.files) fuel "" prelude rq.mainPath rq.mainSrc with
+        | none => "FUEL"
+        | some (_, .err _) => "LOADERR"
+        | some (_, .ok deps main) =>
+          let g : Graph S := graphOf deps main (gl.map (·.1))
+          let vv : VarVals := {
+            imported := (fileVars deps main).map fun (_, _, s, _) => V.arr [V.tag ("D:" ++ stripAt s)],
+            globals := gl.map (·.2) }
+          if !(compileErrors g).isEmpty then "COMPERR"
+          else
+            let showR (x : Except String V) : String := match x with
+              | .ok v => "OUT " ++ v.json
+              | .error e => "EVALERR " ++ e
+            showR (runGraph g vv) ++ " ## " ++ showR (runLexical g vv)
+    | _ => "bad-request"
+  | [] => "bad-request"
+
 /-! search -/
 
 /-- `1` the property's rule, `0` replace always, `c` the code as it currently is (`extFixApplied`) -/
@@ -315,6 +369,7 @@ def setextReq (toks : List String) : String :=
 def handlers : List (String × Handler) := [
   ("c16.run", fun toks => match parseReq toks with | some r => runReq r | none => "bad-request"),
   ("c16.inline", fun toks => match parseReq toks with | some r => inlineReq r | none => "bad-request"),
+  ("c16.cli", cliReq),
   ("c16.find", findReq),
   ("c16.setext", setextReq)
 ]
